@@ -6,7 +6,7 @@ import random
 import numpy as np
 
 from harness.common import Failure, clist, cz
-from harness.tracks_gen import LABEL_IDS, NODE_IDS, all_digraphs, classes, components, cpairs, named_ids, set_partitions
+from harness.tracks_gen import respell, LABEL_IDS, NODE_IDS, all_digraphs, classes, components, cpairs, named_ids, set_partitions
 
 PROP = "C14"
 RULE = ("exhaustive: every digraph (cycles allowed) on <=3 nodes x every labelling up to renaming, plus every such graph with one extra "
@@ -21,6 +21,12 @@ ABSENT = [99, 98]
 
 
 def generate(rng: random.Random, tier: str):
+    r2 = random.Random(rng.random())
+    for c in _generate(rng, tier):
+        yield respell(r2, c)
+
+
+def _generate(rng: random.Random, tier: str):
     for n in range(4):
         for edges in all_digraphs(n, loops=(n <= 2)):
             for labels in set_partitions(n):
